@@ -42,6 +42,7 @@ type c15Req struct {
 	NRandom int    `json:"nrandom"`
 	Shard   int    `json:"shard"`
 	NShards int    `json:"nshards"`
+	Reverse bool   `json:"reverse"` // gates: evaluate the list in reverse order
 }
 
 func init() { drv.Register("c15", c15) }
@@ -179,7 +180,15 @@ func c15(raw json.RawMessage, resp *drv.Response) error {
 	}
 	switch req.Part {
 	case "gates":
-		for gi, g := range doc.Gates {
+		order := make([]int, len(doc.Gates))
+		for i := range order {
+			order[i] = i
+			if req.Reverse { // the value of a gate's constraints does not depend on which gates the process evaluated before
+				order[i] = len(doc.Gates) - 1 - i
+			}
+		}
+		for _, gi := range order {
+			g := doc.Gates[gi]
 			if req.NShards > 0 && gi%req.NShards != req.Shard {
 				continue
 			}
